@@ -566,12 +566,14 @@ CloseFrom(o, line, i) ==
     ELSE TagAll(line - Len(o) + i, RelationsAt(o, i), 1) \o CloseFrom(o, line, i + 1)
 CloseEpisode(line) == IF ep = -1 \/ Len(obs) < 2 THEN << >> ELSE CloseFrom(obs, line, 1)
 
+TierOf(ev) == IF "tier" \in DOMAIN ev THEN ev.tier ELSE "unknown"
+
 (* one action per operation kind, so that -coverage shows what the trace exercised *)
 StepOf(kind) ==
     /\ l <= NRec
     /\ LET ev == Rec[l] IN
-       /\ (IF ev.op = "parse" THEN (IF IsFloatTy(ev.ty) THEN "parse_float" ELSE "parse_int")
-           ELSE IF ev.op = "write" THEN (IF IsFloatTy(ev.ty) THEN "write_float" ELSE "write_int")
+       /\ (IF ev.op = "parse" THEN (IF IsFloatTy(ev.ty) THEN "parse_float_" \o TierOf(ev) ELSE "parse_int")
+           ELSE IF ev.op = "write" THEN (IF IsFloatTy(ev.ty) THEN "write_float_" \o TierOf(ev) ELSE "write_int")
            ELSE IF ev.op \in {"builder", "fmtinfo", "options"} THEN "config"
            ELSE "other") = kind
        /\ LET newEp  == ev.ep # ep
@@ -582,9 +584,23 @@ StepOf(kind) ==
               /\ obs' = IF newEp THEN << ev >> ELSE Append(obs, ev)
     /\ l' = l + 1
 
-ParseFloat == StepOf("parse_float")
+(* The float actions are split by the tier the implementation reports through its verification hooks  *)
+(* (lexical_util::verif, --cfg lexical_verif): the guard names the stage, the postcondition is the same *)
+(* API-level contract -- routes are not judged, they make the trace specification shaped like the code  *)
+(* and let -coverage / the evidence show which stages the traces exercised.                             *)
+ParseFloatFast     == StepOf("parse_float_fast")
+ParseFloatModerate == StepOf("parse_float_moderate")
+ParseFloatSlow     == StepOf("parse_float_slow")
+ParseFloatSpecial  == StepOf("parse_float_special")
+ParseFloatOther    == StepOf("parse_float_none") \/ StepOf("parse_float_unknown")
+ParseFloat == ParseFloatFast \/ ParseFloatModerate \/ ParseFloatSlow \/ ParseFloatSpecial \/ ParseFloatOther
 ParseInt   == StepOf("parse_int")
-WriteFloat == StepOf("write_float")
+WriteFloatDragonbox == StepOf("write_float_dragonbox_normal") \/ StepOf("write_float_dragonbox_shorter")
+WriteFloatGrisu     == StepOf("write_float_grisu")
+WriteFloatBinary    == StepOf("write_float_binary")
+WriteFloatRadix     == StepOf("write_float_radix")
+WriteFloatOther     == StepOf("write_float_none") \/ StepOf("write_float_unknown")
+WriteFloat == WriteFloatDragonbox \/ WriteFloatGrisu \/ WriteFloatBinary \/ WriteFloatRadix \/ WriteFloatOther
 WriteInt   == StepOf("write_int")
 Config     == StepOf("config")
 Other      == StepOf("other")
